@@ -31,11 +31,13 @@ structure CF (st st' : St) : Prop where
   tagName : st'.tagName = st.tagName
   tagAttr : st'.tagAttr = st.tagAttr
   tagIndex : st'.tagIndex = st.tagIndex
+  /-- `l.base`: read by `fixedOf` (the end-tag tests, `l.ctx = l.base`), never written by the main loop -/
+  lbase : st'.lbase = st.lbase
 
-theorem CF.refl (st : St) : CF st st := ⟨rfl, rfl, rfl, rfl, rfl⟩
+theorem CF.refl (st : St) : CF st st := ⟨rfl, rfl, rfl, rfl, rfl, rfl⟩
 theorem CF.trans {a b c : St} (h1 : CF a b) (h2 : CF b c) : CF a c :=
   ⟨h2.ctx.trans h1.ctx, h2.tagCtx.trans h1.tagCtx, h2.tagName.trans h1.tagName, h2.tagAttr.trans h1.tagAttr,
-   h2.tagIndex.trans h1.tagIndex⟩
+   h2.tagIndex.trans h1.tagIndex, h2.lbase.trans h1.lbase⟩
 theorem CF.of_same {a b : St} (h : SameButPos a b) : CF a b := by
   unfold SameButPos at h
   constructor <;> rw [h]
